@@ -131,16 +131,16 @@ var specs = []spec{
 		Assumptions:  schedAssumptions},
 	{ID: "C12", Pkg: ".", Level: "model_checking", Instrument: true, Procs: 1,
 		AtomicRanges: []string{"clientStreamProcessorMPEGTS.joinTrackProcessors"},
-		Rule:         "delay-bounded schedule enumeration (every non-default decision costs one; bound 1 quick / 2 thorough, one more with two closers) of the real Client against the scripted transport: streams {fMP4 one playlist, fMP4 video + audio rendition, MPEG-TS, MPEG-TS with a 120-unit segment that fills the sample hand-off queue, Low-Latency with preload hints} x fault {none, 404, 500, transport error, body that stalls until cancelled, 503 whose body stalls, a body cut off in the middle of its announced length, a transport error that is a context.DeadlineExceeded (http.Client.Timeout), OnTracks error} at every request index x {no Close, Close by a concurrent thread whose single step is thereby placed at every decision point, two Close calls} plus Close called from inside the k-th user callback; an fMP4 stream with three fragments per segment and two tracks is among the streams; an execution in which one thread makes every step and never blocks until the step budget is used up is reported as a livelock of the code; distinct = distinct (stream, fault, end, closed-before-end, callback count/4)",
+		Rule:         "delay-bounded schedule enumeration (every non-default decision costs one; bound 1 quick / 2 thorough, one more with two closers) of the real Client against the scripted transport: streams {fMP4 one playlist, fMP4 video + audio rendition, MPEG-TS, MPEG-TS with a 120-unit segment that fills the sample hand-off queue, Low-Latency with preload hints} x fault {none, 404, 500, transport error, body that stalls until cancelled, 503 whose body stalls, a body cut off in the middle of its announced length, a transport error that is a context.DeadlineExceeded (http.Client.Timeout), OnTracks error} at every request index x {no Close, Close by a concurrent thread whose single step is thereby placed at every decision point, two Close calls} plus Close called from inside the k-th user callback; an fMP4 stream with three fragments per segment and two tracks, and one whose leading init segment announces an extra track the client cannot decode (the leading stream ends with an error while the rendition waits for it), are among the streams; an execution in which one thread makes every step and never blocks until the step budget is used up is reported as a livelock of the code; distinct = distinct (stream, fault, end, closed-before-end, callback count/4)",
 		Assumptions:  schedAssumptions},
 	{ID: "C13", Pkg: ".", Level: "fault_enumeration", Instrument: true, Procs: 1,
 		Rule:        "finite mutation catalogue applied to every resource of six base scenarios (fMP4 video+audio in one playlist, fMP4 video + audio rendition through a multivariant playlist, MPEG-TS video+audio, MPEG-TS video + audio rendition, MPEG-TS byte ranges, a Low-Latency stream whose playlist differs at every poll - every mutation applied to each poll's playlist): empty body, the body of every other resource, init segments with every codec mediacommon can put into fMP4 (12) alone and next to H264 / AAC, permuted / duplicated / gapped track ids, zero time scales, 12 tracks, fragments without leading-track data, with unknown or swapped track ids, huge base times and durations, 30 fragments, MPEG-TS payloads with other codecs or without leading-track data, garbage; truncation at every box boundary and after every box header, removal and duplication of every box, box sizes 0 and 2^32-1, every 32-bit word of tfhd/tfdt/trun/mfhd/mdhd/mvhd/tkhd/trex set to {0,1,2^31,2^32-1}, tfdt base time in {0,1,2^31,2^32-1,2^63,2^64-1}; truncation at every TS packet boundary and inside every packet, corrupted sync / header bytes of every packet; playlists: every line deletion and duplication, every attribute value and plain tag value replaced by each of 9 / 12 degenerate values, the segments k.. of a media playlist marked EXT-X-GAP (every k), truncation at every (3rd) byte, every stored fuzz-corpus text and a few adversarial playlists; each case is one run of the real Client; distinct = distinct (scenario, resource, mutation kind, end, delivered units)",
 		Assumptions: append([]string{"client goroutines are scheduled by the Go runtime inside a testing/synctest bubble (virtual clock); a 60 s real-time watchdog attributes hangs / busy loops"}, commonAssumptions...)},
 	{ID: "C10", Pkg: ".", Level: "exploration", Instrument: true, Procs: 1,
-		Rule:        "full product (quick: minus combinations that only multiply independent options) of container {MPEG-TS, fMP4} x base time {0, 1 tick, 6 s, 2^32-0.5 s, 2^33-1.5 s with the wrap inside the stream (TS) / 2^40 (fMP4)} x tracks {video, audio, video+audio in one playlist in both orders, video + 1..3 audio renditions with timescales 48000/44100/32000} x presentation offsets {none, B-frame pattern} x fragments per segment {1, 3} (+ 10, 11, 12, 16) x addressing {files, byte ranges of one resource incl. the init with explicit offsets, the same with every offset after the first omitted} x PROGRAM-DATE-TIME {absent, present} x {VOD, live start} x audio {aligned, 100 ms ahead and multiplexed first, 100 ms behind}; plus fMP4 codec families (H265 announced as hvc1 and as hev1, AV1, VP9 x AAC, Opus), fMP4 video timescales {600 Hz, 1 kHz, 90 kHz, 10 MHz} x base times up to 2^40 ticks of that timescale and MPEG-TS with an unsupported elementary stream at every position of the program map; each stream is synthesised with mediacommon's writers, served by the scripted transport and read by the real Client in a synctest bubble; reference model: the list of units with container times; distinct = distinct (case, delivered unit count)",
+		Rule:        "full product (quick: minus combinations that only multiply independent options) of container {MPEG-TS, fMP4} x base time {0, 1 tick, 6 s, 2^32-0.5 s, 2^33-1.5 s with the wrap inside the stream (TS) / 2^40 (fMP4)} x tracks {video, audio, video+audio in one playlist in both orders, video + 1..3 audio renditions with timescales 48000/44100/32000} x presentation offsets {none, B-frame pattern} x fragments per segment {1, 3} (+ 10, 11, 12, 16) x addressing {files, byte ranges of one resource incl. the init with explicit offsets, the same with every offset after the first omitted} x PROGRAM-DATE-TIME {absent, present} x {VOD, live start} x audio {aligned, 100 ms ahead and multiplexed first, 100 ms behind}; plus fMP4 codec families (H265 announced as hvc1 and as hev1, AV1, VP9 x AAC, Opus), fMP4 video timescales {600 Hz, 1 kHz, 90 kHz, 10 MHz} x base times up to 2^40 ticks of that timescale and MPEG-TS with an unsupported elementary stream at every position of the program map; streams played for more than 2^32 ticks of 90 kHz (14 segments of 4000 s, units 8 s apart, also starting one hour before the 33-bit wrap) and units exactly 10 s apart; each stream is synthesised with mediacommon's writers, served by the scripted transport and read by the real Client in a synctest bubble; reference model: the list of units with container times; distinct = distinct (case, delivered unit count)",
 		Assumptions: append([]string{"streams are synthesised with mediacommon's MPEG-TS / fMP4 writers", "client goroutines are scheduled by the Go runtime inside a testing/synctest bubble (virtual clock)"}, commonAssumptions...)},
 	{ID: "C11", Pkg: ".", Level: "model_checking", Instrument: true, Procs: 1,
-		Rule:        "explicit enumeration of playlist histories: the server answers the n-th playlist poll after the events {advance the media sequence by 0,1,2,3,6; append ENDLIST} chosen for every poll, all histories to depth 4 (5), x window size {1,2,3,4,6,10} x type {none, EVENT, VOD} x URI style {relative, absolute, with query, byte range with start, byte range without start, non-contiguous explicit ranges alternating with offset-less ones, Low-Latency playlists with preload hints for whole resources and for byte ranges of one resource (start left out when 0), variant and renditions in different directories against a server strict about paths, every form of relative reference of RFC 3986 (query-only, absolute path, dot segments, network path), delta updates advertised to (and honoured for) a client in traditional mode, blocking reloads advertised without a preload hint (traditional mode all the same), EXT-X-ENDLIST before the segments} and, with a multivariant entry point, two renditions evolving independently (all depth-3 x depth-2 history pairs); each history is one run of the real Client against a scripted in-process transport inside a synctest bubble; reference model: an integer (next media sequence number) predicting the exact request sequence, Range headers and the final error; states = histories, transitions = events; distinct = distinct (scenario, end, request counts)",
+		Rule:        "explicit enumeration of playlist histories: the server answers the n-th playlist poll after the events {advance the media sequence by 0,1,2,3,6; append ENDLIST} chosen for every poll, all histories to depth 4 (5), x window size {1,2,3,4,6,10} x type {none, EVENT, VOD} x URI style {relative, absolute, with query, byte range with start, byte range without start, non-contiguous explicit ranges alternating with offset-less ones, Low-Latency playlists with preload hints for whole resources and for byte ranges of one resource (start left out when 0; EXT-X-SERVER-CONTROL also carries HOLD-BACK), variant and renditions in different directories against a server strict about paths, every form of relative reference of RFC 3986 (query-only, absolute path, dot segments, network path), delta updates advertised to (and honoured for) a client in traditional mode, blocking reloads advertised without a preload hint (traditional mode all the same), EXT-X-ENDLIST before the segments} and, with a multivariant entry point, two renditions evolving independently (all depth-3 x depth-2 history pairs); each history is one run of the real Client against a scripted in-process transport inside a synctest bubble; reference model: an integer (next media sequence number) predicting the exact request sequence, Range headers and the final error; states = histories, transitions = events; distinct = distinct (scenario, end, request counts)",
 		Assumptions: append([]string{"client goroutines are scheduled by the Go runtime inside a testing/synctest bubble (virtual clock); the schedule is not enumerated for this property, the playlist history is"}, commonAssumptions...)},
 	{ID: "C14", Pkg: "pkg/playlist", Level: "exploration", Procs: 2,
 		Rule:        "all 2^12 presence combinations of the optional top-level fields of Media x 3 (5) value sets, all 2^10 of Multivariant (variant attributes, second variant, renditions of every referenced type with rotating attribute subsets) x 4 (6) value sets, segment lists of length 1-3 over all 2^7 segment-level flag subsets x 5 value sets with keys changing between segments, every non-empty subset of EXT-X-SERVER-CONTROL attributes, one line of 4095..100001 bytes at each of 10 positions (before / after the line that decides the kind), 16 durations on and off the 10 us grid around every rounding boundary in each of the 7 duration-carrying fields; boundary values per field (titles with commas, quotes, '#' and non-ASCII text, ints 0/1/2^31-1, durations 10 us..3599.99999 s, times in three zones with ms 0/1/999, byte ranges with and without start); for each value: Unmarshal(Marshal(p)) = p field by field, Marshal fixpoint, kind detection, agreement with an independent reader, and every syntactic variant (CRLF, no trailing newline, unknown tag / comment / blank line at every line position with LF and with CRLF line ends, EXT-X-ENDLIST at every legal position, all attribute permutations up to 4 attributes and rotations/reversal/adjacent swaps beyond, an unknown attribute at every position) decodes to the same value; distinct = distinct marshalled texts",
@@ -156,36 +156,36 @@ var specs = []spec{
 		Rule:        "all interleavings with at most b deviations (b=2 for two readers; one reader: 2 quick / 3 thorough; thorough adds bases, warm-up points and five times as many reader pairs) of a writer (scripts: plain frames, part / segment rotation that finalises and removes disk files, window slide, parameter change, a three-times longer segment that raises the target duration, Close) with 1-2 readers each running a 2-request script over the whole URL alphabet (multivariant, media playlist plain / with a query string / blocking / delta, init, segment, part, preload hint, expired, unknown, and follow-ups of a URI taken from the reader's own previous playlist), for Low-Latency / fMP4 / MPEG-TS with RAM and Directory storage; scheduling points: the library's synchronisation operations plus every statement of the storage functions that run outside the muxer mutex; distinct = distinct (scenario, statuses); the data-race clause is decided inside every explored execution by a happens-before monitor (vector clocks over the program's own synchronisation: mutex release/acquire, channel send/close/receive, context cancel, WaitGroup, thread creation - scheduler hand-offs contribute no edge; every access to a field of the muxer, stream, segment, part, track, storage and codec structs is checked against the previous conflicting accesses of the same address), and additionally sampled by a free-running -race pass over the same bodies",
 		Assumptions: schedAssumptions},
 	{ID: "C19", Pkg: ".", Level: "exploration", Procs: 1,
-		Rule:        "complete grid: constant sample duration in {90000/f ticks for 17 (all divisor and 7-/11-multiple) frame rates 1..120, 3003, 1501, 3754 at 90 kHz; 1024 samples at the 13 standard AAC rates, also 2 and 3 access units per call and HE-AAC (explicit SBR); Opus 2.5-60 ms} x PartMinDuration 50..2000 ms step 50 (5) plus off-grid values {51, 101, 104, 202, 251, 333, 999, 1001 ms} x SegmentMinDuration {1, 2 s} x key-frame spacing {every sample, 0.5 s, 1 s, 2.5 s, three irregular patterns incl. a short first segment}, and video-led with an audio track of each of 4 kinds starting {0, 0.5, 1.25 s} late or listed before the video track, each run long enough for three segments; every playlist of every stream served after a part is published is checked (the rendition playlists for the clauses relating a listed part to the PART-TARGET of its own playlist); distinct = distinct (grid point, observed part duration and PART-TARGET)",
+		Rule:        "complete grid: constant sample duration in {90000/f ticks for 17 (all divisor and 7-/11-multiple) frame rates 1..120, 3003, 1501, 3754 at 90 kHz; 1024 samples at the 13 standard AAC rates, also 2 and 3 access units per call and HE-AAC (explicit SBR); Opus 2.5-60 ms} x PartMinDuration 50..2000 ms step 50 (5) plus off-grid values {51, 101, 104, 202, 251, 333, 999, 1001 ms} x SegmentMinDuration {1, 2 s} x key-frame spacing {every sample, 0.5 s, 1 s, 2.5 s, three irregular patterns incl. a short first segment}, and video-led with an audio track of each of 4 kinds starting {0, 0.5, 1.25 s} late or listed before the video track, audio-only streams with a second audio track (plain or marked default); each run long enough for three segments; every playlist of every stream served after a part is published is checked (the rendition playlists for the clauses relating a listed part to the PART-TARGET of its own playlist); distinct = distinct (grid point, observed part duration and PART-TARGET)",
 		Assumptions: e1Assumptions},
 	{ID: "C18", Pkg: ".", Level: "exploration", Procs: 2,
-		Rule:        "retention: all periodic words of period <= 2 (3) of every alphabet family on the configuration grid plus one 1200-write (12000-write) word per variant x RAM/disk x SegmentCount {min, min+2, +3, +5, +9}, observing after every write playlist length, files in Directory, URL-table size and that URIs of expired segments and of their parts neither resolve nor remain in the URL table; size: depth-5 (7) trees over payload sizes {5,6,8 bytes, key frame} for every SegmentMaxSize in 40..62 (video) / 10..16 (audio) / 40..60 (video + audio, bytes counted per stream), Low-Latency with the bytes of a segment spread over several parts, so that the running total lands below, on and above the limit at every position; distinct = distinct (configuration, final playlists, unit counts)",
+		Rule:        "retention (also after storage faults at a rotation: the next segment file cannot be created, or - MPEG-TS - the final flush of the finished segment fails, every rotation index): all periodic words of period <= 2 (3) of every alphabet family on the configuration grid plus one 1200-write (12000-write) word per variant x RAM/disk x SegmentCount {min, min+2, +3, +5, +9}, observing after every write playlist length, files in Directory, URL-table size and that URIs of expired segments and of their parts neither resolve nor remain in the URL table; size: depth-5 (7) trees over payload sizes {5,6,8 bytes, key frame} for every SegmentMaxSize in 40..62 (video) / 10..16 (audio) / 40..60 (video + audio, bytes counted per stream), Low-Latency with the bytes of a segment spread over several parts, so that the running total lands below, on and above the limit at every position; distinct = distinct (configuration, final playlists, unit counts)",
 		Assumptions: e1Assumptions},
 	{ID: "C16", Pkg: ".", Level: "exploration", Procs: 2,
-		Rule:        "every track list Start accepts with <= 4 tracks (every position of at most one video track among 0..3 audio tracks, codecs H264/H265/VP9/AV1/AAC/Opus, names/languages set or not (incl. names with a backslash, non-ASCII spaces and separators), IsDefault on none or on each single audio track) x variant x query string {none, canonical, keys out of order, key without value, escape, pair a parser rejects}, each driven by a word with regular GOPs, parameter changes on and off key frames (every component / one component), in an access unit of their own, and bare key frames, index.m3u8 observed after every write, a third of the configurations also from Directory storage; plus depth-N trees over {0, S/2, S} x {RA, RA+parameter switch, non-RA} for zero-duration segments; expected codec strings, resolutions and frame rates come from an independent formatter and mediacommon's test vectors; distinct = distinct (configuration, final playlists)",
+		Rule:        "every track list Start accepts with <= 4 tracks (every position of at most one video track among 0..3 audio tracks, codecs H264/H265/VP9/AV1/AAC/Opus, names/languages set or not (incl. names with a backslash, non-ASCII spaces and separators), IsDefault on none or on each single audio track) x variant x query string {none, canonical, keys out of order, key without value, escape, pair a parser rejects}, each driven by a word with regular GOPs, parameter changes on and off key frames (every component / one component), in an access unit of their own, and bare key frames, index.m3u8 observed after every write, a third of the configurations also from Directory storage; plus depth-N trees over {0, S/2, S} x {RA, RA+parameter switch, non-RA} for zero-duration segments; an index.m3u8 request issued before the first Write and pending while the parameter sets change (every word over {key frame, key frame with new parameter sets, ordinary frame} to depth 5 (7), 7 variant x codec combinations) must get the answer a request issued at that moment gets; expected codec strings, resolutions and frame rates come from an independent formatter and mediacommon's test vectors; distinct = distinct (configuration, final playlists)",
 		Assumptions: e1Assumptions},
 	{ID: "C01", Pkg: ".", Level: "exploration", Procs: 2,
-		Rule:        "words over a finite write alphabet (timing family: delta in {0, one frame, S-1 tick, S, 1.4 S} x {random access, not}; parameter family: {one frame, S} x {RA with / without inline parameter sets, non-RA (H265: every non-IRAP slice type in turn - TRAIL, TSA, STSA, RADL, RASL, _N and _R), parameter switch on RA / on non-RA, an access unit of parameter sets only (H264)}, the switched set differing in every component or in exactly one; interleaving family: all tracks x 2 deltas x 2 kinds, 1- and 2-AU audio writes, 1- and 3-packet Opus writes whose packets last 20/10/40 ms, HE-AAC with explicit SBR signalling; audio family; reorder family: H264 with picture-order-count reordering and H265 with sps_max_num_reorder_pics = 2 (slice headers of mediacommon's test stream), {one frame, S} x {IDR, P, P written ahead of a B, that B} + IDR at S-1 tick + parameter switch, the written decode time being the one mediacommon's DTS extractor derives from the written PTS/POC sequence) enumerated exhaustively as depth-N trees (from the initial state, after a regular preamble that fills the window, from negative start times, from start times of 28.5 h so that 2^63 ns / 10^9 ticks products are crossed inside the word) and as all periodic words of period <= 2 (3) run for 12 (16) x SegmentCount writes, on a configuration grid (variant x track set incl. audio-before-video x codecs incl. H264 (also with reordered frames) on a 1 kHz clock and 48 kHz AAC on a 90 kHz clock in MPEG-TS, a small SegmentMaxSize x RAM/disk x SegmentCount x SegmentMinDuration {0.25, 0.5, 1, 2 s} x PartMinDuration {100, 200 ms}; Variant / SegmentMinDuration / PartMinDuration left at their zero values with SegmentCount 3..8), plus audio-only MPEG-TS periodic words of 430 writes (a cut needs 100 writes) and fault scenarios (the creation of the k-th segment file / a write to the k-th part fails; random-access units k and k+1 carry unparsable parameter sets; the first segment file of a later stream cannot be created; every k); after every write everything the muxer advertises is fetched through Handle (full playlist, delta update, never-advertised names), decoded with mediacommon and compared with a reference model of the written stream; distinct = distinct (configuration, final playlists, emitted-unit counts)",
+		Rule:        "words over a finite write alphabet (timing family: delta in {0, one frame, S-1 tick, S, 1.4 S} x {random access, not}; parameter family: {one frame, S} x {RA with / without inline parameter sets, non-RA (H265: every non-IRAP slice type in turn - TRAIL, TSA, STSA, RADL, RASL, _N and _R), parameter switch on RA / on non-RA, an access unit of parameter sets only (H264)}, the switched set differing in every component or in exactly one; interleaving family: all tracks x 2 deltas x 2 kinds, 1- and 2-AU audio writes, 1- and 3-packet Opus writes whose packets last 20/10/40 ms (Opus also as the leading track of audio-only streams), HE-AAC with explicit SBR signalling; audio family; reorder family: H264 with picture-order-count reordering and H265 with sps_max_num_reorder_pics = 2 (slice headers of mediacommon's test stream), {one frame, S} x {IDR, P, P written ahead of a B, that B} + IDR at S-1 tick + parameter switch, the written decode time being the one mediacommon's DTS extractor derives from the written PTS/POC sequence) enumerated exhaustively as depth-N trees (from the initial state, after a regular preamble that fills the window, from negative start times, from start times of 28.5 h so that 2^63 ns / 10^9 ticks products are crossed inside the word) and as all periodic words of period <= 2 (3) run for 12 (16) x SegmentCount writes, plus long groups of pictures with more than 100 single-unit audio writes per segment, on a configuration grid (variant x track set incl. audio-before-video x codecs incl. H264 (also with reordered frames) on a 1 kHz clock and 48 kHz AAC on a 90 kHz clock in MPEG-TS, a small SegmentMaxSize x RAM/disk x SegmentCount x SegmentMinDuration {0.25, 0.5, 1, 2 s} x PartMinDuration {100, 200 ms}; Variant / SegmentMinDuration / PartMinDuration left at their zero values with SegmentCount 3..8), plus audio-only MPEG-TS periodic words of 430 writes (a cut needs 100 writes) and fault scenarios (the creation of the k-th segment file / a write to the k-th part fails; random-access units k and k+1 carry unparsable parameter sets; the first segment file of a later stream cannot be created; every k); after every write everything the muxer advertises is fetched through Handle (full playlist, delta update, never-advertised names), decoded with mediacommon and compared with a reference model of the written stream; distinct = distinct (configuration, final playlists, emitted-unit counts)",
 		Assumptions: e1Assumptions},
 	{ID: "C02", Pkg: ".", Level: "exploration", Procs: 2,
-		Rule:        "words over a finite write alphabet (timing family: delta in {0, one frame, S-1 tick, S, 1.4 S} x {random access, not}; parameter family: {one frame, S} x {RA with / without inline parameter sets, non-RA (H265: every non-IRAP slice type in turn - TRAIL, TSA, STSA, RADL, RASL, _N and _R), parameter switch on RA / on non-RA, an access unit of parameter sets only (H264)}, the switched set differing in every component or in exactly one; interleaving family: all tracks x 2 deltas x 2 kinds, 1- and 2-AU audio writes, 1- and 3-packet Opus writes whose packets last 20/10/40 ms, HE-AAC with explicit SBR signalling; audio family; reorder family: H264 with picture-order-count reordering and H265 with sps_max_num_reorder_pics = 2 (slice headers of mediacommon's test stream), {one frame, S} x {IDR, P, P written ahead of a B, that B} + IDR at S-1 tick + parameter switch, the written decode time being the one mediacommon's DTS extractor derives from the written PTS/POC sequence) enumerated exhaustively as depth-N trees (from the initial state, after a regular preamble that fills the window, from negative start times, from start times of 28.5 h so that 2^63 ns / 10^9 ticks products are crossed inside the word) and as all periodic words of period <= 2 (3) run for 12 (16) x SegmentCount writes, on a configuration grid (variant x track set incl. audio-before-video x codecs incl. H264 (also with reordered frames) on a 1 kHz clock and 48 kHz AAC on a 90 kHz clock in MPEG-TS, a small SegmentMaxSize x RAM/disk x SegmentCount x SegmentMinDuration {0.25, 0.5, 1, 2 s} x PartMinDuration {100, 200 ms}; Variant / SegmentMinDuration / PartMinDuration left at their zero values with SegmentCount 3..8), plus audio-only MPEG-TS periodic words of 430 writes (a cut needs 100 writes) and fault scenarios (the creation of the k-th segment file / a write to the k-th part fails; random-access units k and k+1 carry unparsable parameter sets; the first segment file of a later stream cannot be created; every k); after every write everything the muxer advertises is fetched through Handle (full playlist, delta update, never-advertised names), decoded with mediacommon and compared with a reference model of the written stream; distinct = distinct (configuration, final playlists, emitted-unit counts)",
+		Rule:        "words over a finite write alphabet (timing family: delta in {0, one frame, S-1 tick, S, 1.4 S} x {random access, not}; parameter family: {one frame, S} x {RA with / without inline parameter sets, non-RA (H265: every non-IRAP slice type in turn - TRAIL, TSA, STSA, RADL, RASL, _N and _R), parameter switch on RA / on non-RA, an access unit of parameter sets only (H264)}, the switched set differing in every component or in exactly one; interleaving family: all tracks x 2 deltas x 2 kinds, 1- and 2-AU audio writes, 1- and 3-packet Opus writes whose packets last 20/10/40 ms (Opus also as the leading track of audio-only streams), HE-AAC with explicit SBR signalling; audio family; reorder family: H264 with picture-order-count reordering and H265 with sps_max_num_reorder_pics = 2 (slice headers of mediacommon's test stream), {one frame, S} x {IDR, P, P written ahead of a B, that B} + IDR at S-1 tick + parameter switch, the written decode time being the one mediacommon's DTS extractor derives from the written PTS/POC sequence) enumerated exhaustively as depth-N trees (from the initial state, after a regular preamble that fills the window, from negative start times, from start times of 28.5 h so that 2^63 ns / 10^9 ticks products are crossed inside the word) and as all periodic words of period <= 2 (3) run for 12 (16) x SegmentCount writes, plus long groups of pictures with more than 100 single-unit audio writes per segment, on a configuration grid (variant x track set incl. audio-before-video x codecs incl. H264 (also with reordered frames) on a 1 kHz clock and 48 kHz AAC on a 90 kHz clock in MPEG-TS, a small SegmentMaxSize x RAM/disk x SegmentCount x SegmentMinDuration {0.25, 0.5, 1, 2 s} x PartMinDuration {100, 200 ms}; Variant / SegmentMinDuration / PartMinDuration left at their zero values with SegmentCount 3..8), plus audio-only MPEG-TS periodic words of 430 writes (a cut needs 100 writes) and fault scenarios (the creation of the k-th segment file / a write to the k-th part fails; random-access units k and k+1 carry unparsable parameter sets; the first segment file of a later stream cannot be created; every k); after every write everything the muxer advertises is fetched through Handle (full playlist, delta update, never-advertised names), decoded with mediacommon and compared with a reference model of the written stream; distinct = distinct (configuration, final playlists, emitted-unit counts)",
 		Assumptions: e1Assumptions},
 	{ID: "C03", Pkg: ".", Level: "exploration", Procs: 2,
-		Rule:        "words over a finite write alphabet (timing family: delta in {0, one frame, S-1 tick, S, 1.4 S} x {random access, not}; parameter family: {one frame, S} x {RA with / without inline parameter sets, non-RA (H265: every non-IRAP slice type in turn - TRAIL, TSA, STSA, RADL, RASL, _N and _R), parameter switch on RA / on non-RA, an access unit of parameter sets only (H264)}, the switched set differing in every component or in exactly one; interleaving family: all tracks x 2 deltas x 2 kinds, 1- and 2-AU audio writes, 1- and 3-packet Opus writes whose packets last 20/10/40 ms, HE-AAC with explicit SBR signalling; audio family; reorder family: H264 with picture-order-count reordering and H265 with sps_max_num_reorder_pics = 2 (slice headers of mediacommon's test stream), {one frame, S} x {IDR, P, P written ahead of a B, that B} + IDR at S-1 tick + parameter switch, the written decode time being the one mediacommon's DTS extractor derives from the written PTS/POC sequence) enumerated exhaustively as depth-N trees (from the initial state, after a regular preamble that fills the window, from negative start times, from start times of 28.5 h so that 2^63 ns / 10^9 ticks products are crossed inside the word) and as all periodic words of period <= 2 (3) run for 12 (16) x SegmentCount writes, on a configuration grid (variant x track set incl. audio-before-video x codecs incl. H264 (also with reordered frames) on a 1 kHz clock and 48 kHz AAC on a 90 kHz clock in MPEG-TS, a small SegmentMaxSize x RAM/disk x SegmentCount x SegmentMinDuration {0.25, 0.5, 1, 2 s} x PartMinDuration {100, 200 ms}; Variant / SegmentMinDuration / PartMinDuration left at their zero values with SegmentCount 3..8), plus audio-only MPEG-TS periodic words of 430 writes (a cut needs 100 writes) and fault scenarios (the creation of the k-th segment file / a write to the k-th part fails; random-access units k and k+1 carry unparsable parameter sets; the first segment file of a later stream cannot be created; every k); after every write everything the muxer advertises is fetched through Handle (full playlist, delta update, never-advertised names), decoded with mediacommon and compared with a reference model of the written stream; distinct = distinct (configuration, final playlists, emitted-unit counts)",
+		Rule:        "words over a finite write alphabet (timing family: delta in {0, one frame, S-1 tick, S, 1.4 S} x {random access, not}; parameter family: {one frame, S} x {RA with / without inline parameter sets, non-RA (H265: every non-IRAP slice type in turn - TRAIL, TSA, STSA, RADL, RASL, _N and _R), parameter switch on RA / on non-RA, an access unit of parameter sets only (H264)}, the switched set differing in every component or in exactly one; interleaving family: all tracks x 2 deltas x 2 kinds, 1- and 2-AU audio writes, 1- and 3-packet Opus writes whose packets last 20/10/40 ms (Opus also as the leading track of audio-only streams), HE-AAC with explicit SBR signalling; audio family; reorder family: H264 with picture-order-count reordering and H265 with sps_max_num_reorder_pics = 2 (slice headers of mediacommon's test stream), {one frame, S} x {IDR, P, P written ahead of a B, that B} + IDR at S-1 tick + parameter switch, the written decode time being the one mediacommon's DTS extractor derives from the written PTS/POC sequence) enumerated exhaustively as depth-N trees (from the initial state, after a regular preamble that fills the window, from negative start times, from start times of 28.5 h so that 2^63 ns / 10^9 ticks products are crossed inside the word) and as all periodic words of period <= 2 (3) run for 12 (16) x SegmentCount writes, plus long groups of pictures with more than 100 single-unit audio writes per segment, on a configuration grid (variant x track set incl. audio-before-video x codecs incl. H264 (also with reordered frames) on a 1 kHz clock and 48 kHz AAC on a 90 kHz clock in MPEG-TS, a small SegmentMaxSize x RAM/disk x SegmentCount x SegmentMinDuration {0.25, 0.5, 1, 2 s} x PartMinDuration {100, 200 ms}; Variant / SegmentMinDuration / PartMinDuration left at their zero values with SegmentCount 3..8), plus audio-only MPEG-TS periodic words of 430 writes (a cut needs 100 writes) and fault scenarios (the creation of the k-th segment file / a write to the k-th part fails; random-access units k and k+1 carry unparsable parameter sets; the first segment file of a later stream cannot be created; every k); after every write everything the muxer advertises is fetched through Handle (full playlist, delta update, never-advertised names), decoded with mediacommon and compared with a reference model of the written stream; distinct = distinct (configuration, final playlists, emitted-unit counts)",
 		Assumptions: e1Assumptions},
 	{ID: "C04", Pkg: ".", Level: "exploration", Procs: 2,
-		Rule:        "words over a finite write alphabet (timing family: delta in {0, one frame, S-1 tick, S, 1.4 S} x {random access, not}; parameter family: {one frame, S} x {RA with / without inline parameter sets, non-RA (H265: every non-IRAP slice type in turn - TRAIL, TSA, STSA, RADL, RASL, _N and _R), parameter switch on RA / on non-RA, an access unit of parameter sets only (H264)}, the switched set differing in every component or in exactly one; interleaving family: all tracks x 2 deltas x 2 kinds, 1- and 2-AU audio writes, 1- and 3-packet Opus writes whose packets last 20/10/40 ms, HE-AAC with explicit SBR signalling; audio family; reorder family: H264 with picture-order-count reordering and H265 with sps_max_num_reorder_pics = 2 (slice headers of mediacommon's test stream), {one frame, S} x {IDR, P, P written ahead of a B, that B} + IDR at S-1 tick + parameter switch, the written decode time being the one mediacommon's DTS extractor derives from the written PTS/POC sequence) enumerated exhaustively as depth-N trees (from the initial state, after a regular preamble that fills the window, from negative start times, from start times of 28.5 h so that 2^63 ns / 10^9 ticks products are crossed inside the word) and as all periodic words of period <= 2 (3) run for 12 (16) x SegmentCount writes, on a configuration grid (variant x track set incl. audio-before-video x codecs incl. H264 (also with reordered frames) on a 1 kHz clock and 48 kHz AAC on a 90 kHz clock in MPEG-TS, a small SegmentMaxSize x RAM/disk x SegmentCount x SegmentMinDuration {0.25, 0.5, 1, 2 s} x PartMinDuration {100, 200 ms}; Variant / SegmentMinDuration / PartMinDuration left at their zero values with SegmentCount 3..8), plus audio-only MPEG-TS periodic words of 430 writes (a cut needs 100 writes) and fault scenarios (the creation of the k-th segment file / a write to the k-th part fails; random-access units k and k+1 carry unparsable parameter sets; the first segment file of a later stream cannot be created; every k); after every write everything the muxer advertises is fetched through Handle (full playlist, delta update, never-advertised names), decoded with mediacommon and compared with a reference model of the written stream; distinct = distinct (configuration, final playlists, emitted-unit counts)",
+		Rule:        "words over a finite write alphabet (timing family: delta in {0, one frame, S-1 tick, S, 1.4 S} x {random access, not}; parameter family: {one frame, S} x {RA with / without inline parameter sets, non-RA (H265: every non-IRAP slice type in turn - TRAIL, TSA, STSA, RADL, RASL, _N and _R), parameter switch on RA / on non-RA, an access unit of parameter sets only (H264)}, the switched set differing in every component or in exactly one; interleaving family: all tracks x 2 deltas x 2 kinds, 1- and 2-AU audio writes, 1- and 3-packet Opus writes whose packets last 20/10/40 ms (Opus also as the leading track of audio-only streams), HE-AAC with explicit SBR signalling; audio family; reorder family: H264 with picture-order-count reordering and H265 with sps_max_num_reorder_pics = 2 (slice headers of mediacommon's test stream), {one frame, S} x {IDR, P, P written ahead of a B, that B} + IDR at S-1 tick + parameter switch, the written decode time being the one mediacommon's DTS extractor derives from the written PTS/POC sequence) enumerated exhaustively as depth-N trees (from the initial state, after a regular preamble that fills the window, from negative start times, from start times of 28.5 h so that 2^63 ns / 10^9 ticks products are crossed inside the word) and as all periodic words of period <= 2 (3) run for 12 (16) x SegmentCount writes, plus long groups of pictures with more than 100 single-unit audio writes per segment, on a configuration grid (variant x track set incl. audio-before-video x codecs incl. H264 (also with reordered frames) on a 1 kHz clock and 48 kHz AAC on a 90 kHz clock in MPEG-TS, a small SegmentMaxSize x RAM/disk x SegmentCount x SegmentMinDuration {0.25, 0.5, 1, 2 s} x PartMinDuration {100, 200 ms}; Variant / SegmentMinDuration / PartMinDuration left at their zero values with SegmentCount 3..8), plus audio-only MPEG-TS periodic words of 430 writes (a cut needs 100 writes) and fault scenarios (the creation of the k-th segment file / a write to the k-th part fails; random-access units k and k+1 carry unparsable parameter sets; the first segment file of a later stream cannot be created; every k); after every write everything the muxer advertises is fetched through Handle (full playlist, delta update, never-advertised names), decoded with mediacommon and compared with a reference model of the written stream; distinct = distinct (configuration, final playlists, emitted-unit counts)",
 		Assumptions: e1Assumptions},
 	{ID: "C05-inflight", Prop: "C05", HarnessKey: "C05-inflight", Hidden: true, Pkg: ".", Level: "model_checking", Instrument: true, Procs: 1,
 		InstrPkgs:   []string{".", "pkg/storage"},
 		StmtPoints:  []string{"partDisk.Reader", "fileDisk.Finalize", "fileDisk.Reader", "fileDisk.NewPart", "fileRAM.Finalize", "fileRAM.Reader"},
 		Assumptions: schedAssumptions},
 	{ID: "C05", Pkg: ".", Level: "exploration", Procs: 1, Also: []string{"C05-inflight"},
-		Rule:        "words over a finite write alphabet (timing family: delta in {0, one frame, S-1 tick, S, 1.4 S} x {random access, not}; parameter family: {one frame, S} x {RA with / without inline parameter sets, non-RA (H265: every non-IRAP slice type in turn - TRAIL, TSA, STSA, RADL, RASL, _N and _R), parameter switch on RA / on non-RA, an access unit of parameter sets only (H264)}, the switched set differing in every component or in exactly one; interleaving family: all tracks x 2 deltas x 2 kinds, 1- and 2-AU audio writes, 1- and 3-packet Opus writes whose packets last 20/10/40 ms, HE-AAC with explicit SBR signalling; audio family; reorder family: H264 with picture-order-count reordering and H265 with sps_max_num_reorder_pics = 2 (slice headers of mediacommon's test stream), {one frame, S} x {IDR, P, P written ahead of a B, that B} + IDR at S-1 tick + parameter switch, the written decode time being the one mediacommon's DTS extractor derives from the written PTS/POC sequence) enumerated exhaustively as depth-N trees (from the initial state, after a regular preamble that fills the window, from negative start times, from start times of 28.5 h so that 2^63 ns / 10^9 ticks products are crossed inside the word) and as all periodic words of period <= 2 (3) run for 12 (16) x SegmentCount writes, on a configuration grid (variant x track set incl. audio-before-video x codecs incl. H264 (also with reordered frames) on a 1 kHz clock and 48 kHz AAC on a 90 kHz clock in MPEG-TS, a small SegmentMaxSize x RAM/disk x SegmentCount x SegmentMinDuration {0.25, 0.5, 1, 2 s} x PartMinDuration {100, 200 ms}; Variant / SegmentMinDuration / PartMinDuration left at their zero values with SegmentCount 3..8), plus audio-only MPEG-TS periodic words of 430 writes (a cut needs 100 writes) and fault scenarios (the creation of the k-th segment file / a write to the k-th part fails; random-access units k and k+1 carry unparsable parameter sets; the first segment file of a later stream cannot be created; every k); after every write everything the muxer advertises is fetched through Handle (full playlist, delta update, never-advertised names), decoded with mediacommon and compared with a reference model of the written stream; plus downloads in flight while the writer carries on: all interleavings with at most 2 deviations of a writer (5 frames that publish parts, complete, finalise and remove segments) with one reader (two for overlapping downloads of parts of one finalised segment with bodies of several Writes) that fetches a listed segment / part / init and is slow to take the response (scheduling points at the library's synchronisation operations, at every statement of the storage functions and between the response header and body), Low-Latency / fMP4 / MPEG-TS on RAM and Directory storage: the bytes received are those of the listed resource; distinct = distinct (configuration, final playlists, emitted-unit counts)",
+		Rule:        "words over a finite write alphabet (timing family: delta in {0, one frame, S-1 tick, S, 1.4 S} x {random access, not}; parameter family: {one frame, S} x {RA with / without inline parameter sets, non-RA (H265: every non-IRAP slice type in turn - TRAIL, TSA, STSA, RADL, RASL, _N and _R), parameter switch on RA / on non-RA, an access unit of parameter sets only (H264)}, the switched set differing in every component or in exactly one; interleaving family: all tracks x 2 deltas x 2 kinds, 1- and 2-AU audio writes, 1- and 3-packet Opus writes whose packets last 20/10/40 ms (Opus also as the leading track of audio-only streams), HE-AAC with explicit SBR signalling; audio family; reorder family: H264 with picture-order-count reordering and H265 with sps_max_num_reorder_pics = 2 (slice headers of mediacommon's test stream), {one frame, S} x {IDR, P, P written ahead of a B, that B} + IDR at S-1 tick + parameter switch, the written decode time being the one mediacommon's DTS extractor derives from the written PTS/POC sequence) enumerated exhaustively as depth-N trees (from the initial state, after a regular preamble that fills the window, from negative start times, from start times of 28.5 h so that 2^63 ns / 10^9 ticks products are crossed inside the word) and as all periodic words of period <= 2 (3) run for 12 (16) x SegmentCount writes, plus long groups of pictures with more than 100 single-unit audio writes per segment, on a configuration grid (variant x track set incl. audio-before-video x codecs incl. H264 (also with reordered frames) on a 1 kHz clock and 48 kHz AAC on a 90 kHz clock in MPEG-TS, a small SegmentMaxSize x RAM/disk x SegmentCount x SegmentMinDuration {0.25, 0.5, 1, 2 s} x PartMinDuration {100, 200 ms}; Variant / SegmentMinDuration / PartMinDuration left at their zero values with SegmentCount 3..8), plus audio-only MPEG-TS periodic words of 430 writes (a cut needs 100 writes) and fault scenarios (the creation of the k-th segment file / a write to the k-th part fails; random-access units k and k+1 carry unparsable parameter sets; the first segment file of a later stream cannot be created; every k); after every write everything the muxer advertises is fetched through Handle (full playlist, delta update, never-advertised names), decoded with mediacommon and compared with a reference model of the written stream; plus downloads in flight while the writer carries on: all interleavings with at most 2 deviations of a writer (5 frames that publish parts, complete, finalise and remove segments) with one reader (two for overlapping downloads of parts of one finalised segment with bodies of several Writes) that fetches a listed segment / part / init and is slow to take the response (scheduling points at the library's synchronisation operations, at every statement of the storage functions and between the response header and body), Low-Latency / fMP4 / MPEG-TS on RAM and Directory storage: the bytes received are those of the listed resource; distinct = distinct (configuration, final playlists, emitted-unit counts)",
 		Assumptions: e1Assumptions},
 
 	{ID: "C06", Pkg: ".", Level: "model_checking", Instrument: true, RacePass: false, Procs: 1,
-		Rule:        "schedule half: all interleavings with at most b deviations (2 quick / 3 thorough for two requesters, one more for a single requester) of a writer feeding k in {1,2,3,5} frames from three positions (part about to be published, just published, segment about to complete) with 1-2 concurrent requests drawn from {blocking reload for the next part / the part after / the open segment / the next segment / part 0 of it / a part index past the end, preload hint, plain playlist, already published, too far, expired, hint after next}; sequential half: every (msn, part) of a grid relative to the playlist at every node of the Low-Latency write trees (SegmentCount 7, 8, 10), malformed directives, delta updates against the full playlist of the same instant; distinct = distinct (scenario, statuses and completion points)",
+		Rule:        "schedule half: all interleavings with at most b deviations (2 quick / 3 thorough for two requesters, one more for a single requester) of a writer feeding k in {1,2,3,5} frames from three positions (part about to be published, just published, segment about to complete) with 1-2 concurrent requests drawn from {blocking reload for the next part / the part after / the open segment / the next segment / part 0 of it / a part index past the end, preload hint, plain playlist, already published, too far, expired, hint after next}; sequential half: every (msn, part) of a grid relative to the playlist at every node of the Low-Latency write trees (SegmentCount 7, 8, 10), malformed directives (also sign, fraction, radix and white-space forms of the numbers), delta updates against the full playlist of the same instant; distinct = distinct (scenario, statuses and completion points)",
 		Assumptions: schedAssumptions},
 	{ID: "C07", Pkg: ".", Level: "model_checking", Instrument: true, RacePass: false, Procs: 1,
 		InstrPkgs:   []string{".", "pkg/storage"}, // the storage back ends have a lock of their own
@@ -194,7 +194,7 @@ var specs = []spec{
 		Assumptions: schedAssumptions},
 	{ID: "C20", Pkg: ".", Level: "model_checking", Instrument: true, RacePass: true, Procs: 1,
 		AccessTypes: []string{"*"}, AccessTypePkgs: []string{"pkg/codecs"},
-		Rule:        "all interleavings with at most b deviations (preemptions / non-default select preferences; b=3 quick, 5 thorough, unbounded for the smallest scenarios; points at every mutex acquire/release, channel close, select) of a producer (k pushes, waitUntilSizeIsBelow(n) after each), a consumer (m pulls) and an optional canceller on the real clientSegmentQueue, with and without the end-of-stream marker (push(nil)), plus end-to-end look-ahead scenarios with the real downloader and processor (VOD, live, and live playlists carrying Low-Latency tags that do not select the Low-Latency mode: server control without CAN-BLOCK-RELOAD plus a preload hint, CAN-BLOCK-RELOAD without a hint); every explored execution is also checked by the happens-before race monitor (every field of every struct of the package); distinct = distinct (scenario, final observation) pairs",
+		Rule:        "all interleavings with at most b deviations (preemptions / non-default select preferences; b=3 quick, 5 thorough, unbounded for the smallest scenarios; points at every mutex acquire/release, channel close, select) of a producer (k pushes, waitUntilSizeIsBelow(n) after each), a consumer (m pulls) and an optional canceller on the real clientSegmentQueue, with and without the end-of-stream marker (push(nil)), with bursts of 2-4 pushes before a wait (a successful wait leaves at most n segments queued), plus end-to-end look-ahead scenarios with the real downloader and processor (VOD, live, and live playlists carrying Low-Latency tags that do not select the Low-Latency mode: server control without CAN-BLOCK-RELOAD plus a preload hint, CAN-BLOCK-RELOAD without a hint); every explored execution is also checked by the happens-before race monitor (every field of every struct of the package); distinct = distinct (scenario, final observation) pairs",
 		Assumptions: schedAssumptions},
 	{ID: "C17", Pkg: "pkg/storage", Level: "model_checking", Procs: 8, MemKB: 10 * 1024 * 1024,
 		Rule:        "explicit-state BFS over storage operation sequences (NewPart, Write, Write after a refused Seek, rewrite of the previous part's head through its kept writer, Seek, Finalize, Size, open/read readers with several buffer sizes and with io.Copy, Remove - also before Finalize, with a listing of the directory afterwards) applied to the real RAM and disk back ends (the disk file created in an empty directory or over a longer stale file of the same name) and a [][]byte model; a state is the exact observable state (part contents, writer position, finalized/removed flags, open readers with offsets); distinct = distinct state keys",
